@@ -69,6 +69,18 @@ def _install_spin_monitor(prefix):
     _SPIN["installed"] = True
 
 
+def _hold_names(spec, name):
+    """a hold names its thread exactly, by prefix ("recv_answer*") or by exclusion ("!caller,network": any thread whose name starts
+    with none of these - e.g. whatever threads the library itself starts, under whatever name)"""
+    if spec == name:
+        return True
+    if spec.endswith("*"):
+        return name.startswith(spec[:-1])
+    if spec.startswith("!"):
+        return not any(name.startswith(p) for p in spec[1:].split(","))
+    return False
+
+
 class CT:
     __slots__ = ("id", "name", "sem", "state", "pred", "deadline", "wake", "real", "exc", "last_run", "steps", "blocked_on", "daemon")
 
@@ -153,6 +165,11 @@ class Scheduler:
                 if self.line_preempt or self.line_holds:
                     sys.settrace(self._tracer)
                 target()
+                if not self.killing:
+                    # the function has returned but the thread is not gone yet (is_alive() is still true): a scheduling point of its
+                    # own, so that a hold can keep a thread in that state while others look at it
+                    sys.settrace(None)
+                    self.point("thread.exit")
         except Killed:
             pass
         except BaseException as e:        # library errors derive from BaseException
@@ -174,10 +191,10 @@ class Scheduler:
             if self.line_holds and self.holds:
                 kind = "line:" + frame.f_code.co_name
                 cur = self.current
-                if cur is not None and any(h[1] == kind and h[0] == cur.name for h in self.holds):
+                if cur is not None and any(h[1] == kind and _hold_names(h[0], cur.name) for h in self.holds):
                     self.point(kind, line=(frame.f_code.co_name, frame.f_lineno))
                     return self._line
-                if cur is not None and any(h[1] == "line:*" and h[0] == cur.name for h in self.holds):
+                if cur is not None and any(h[1] == "line:*" and _hold_names(h[0], cur.name) for h in self.holds):
                     # any source line of the library executed by that thread
                     self.point("line:*", line=(frame.f_code.co_name, frame.f_lineno))
                     return self._line
@@ -254,7 +271,7 @@ class Scheduler:
             self.step_hook(cur, kind)
         if self.holds and not self.killing and not kind.startswith("held:"):
             for h in self.holds:
-                if h[0] == cur.name and h[1] == kind:
+                if _hold_names(h[0], cur.name) and h[1] == kind:
                     h[5] += 1
                     # nth == 0: at every visit ("slow motion" at that kind of point) - the first SLOW_VISITS ones only, so that the
                     # total delay stays far below the checks' liveness horizons (a slow thread is not a stuck thread)
